@@ -313,6 +313,21 @@ def main(tier, replay):
         chk.violation("nd:abort", "N-dimensional array oracle aborted (sanitizer report or crash): " + " | ".join(summary)[:600],
                       "\n".join(summary) + "\n" + r.stdout[-6000:])
 
+    # ---- N-dimensional correspondence: the real array, serialised level by level, and the real at()/size_all() against the
+    #      Lean model of nested index-range maps (RArr.at?, RArr.sizeAll; theorem C11_nd_checked_access_is_map)
+    ndq = [l[4:].split(" => ") for l in nd_lines if l.startswith("NDQ ") and " => " in l]
+    ndq_err = 0
+    if ndq:
+        ndq_model = run_model([q[0] for q in ndq], "ndq")
+        ndq_bad = [(q, m) for (q, m) in zip(ndq, ndq_model + ["MISSING"] * (len(ndq) - len(ndq_model))) if q[1] != m]
+        ndq_err = sum(1 for q in ndq if q[1].startswith("err"))
+        for q, m in ndq_bad[:3]:
+            chk.violation("ndq:" + q[0][:100], "checked access / size_all of an N-dimensional array: implementation and Lean model disagree "
+                          "(implementation %s, model %s) on %s" % (q[1], m, q[0][:300]), "%s\n# impl : %s\n# model: %s\n" % (q[0], q[1], m))
+    elif nd_done and not fails:
+        chk.violation("ndq:none", "the N-dimensional run produced no checked-access questions for the Lean model (tie not exercised)", "\n".join(nd_lines[-20:]))
+    op_hist["nd:model-questions"] = len(ndq)
+    op_hist["nd:model-questions-outside-the-range"] = ndq_err
     for l in nd_ops:
         op_hist["nd:" + l] = nd_ops[l]
     chk.coverage.update(dict(
@@ -342,7 +357,9 @@ def main(tier, replay):
         traces_validated_against_impl=len(histories) - n_div))
     chk.assumptions += ["element type int; the allocator, shared_ptr lifetime and iterator invalidation are runtime behaviour seen only by ASan, not by the model",
                         "N-dimensional arrays (2-4 dimensions), memory views, constructors, moves and array_index_functions are checked by the harness oracle "
-                        "(nested reference map), not by a Lean theorem (Props.lean has only the row-major flattening lemma for them); the Lean model and the "
+                        "(nested reference map); of the N-dimensional classes the Lean model covers the checked access at(coordinate) and size_all() on nested "
+                        "index-range maps of any depth and shape (C11_nd_checked_access_is_map, C11_nd_size_all; tied by serialising the real array and asking the "
+                        "real at()), and the row-major flattening lemma; histories of N-dimensional arrays are NOT modelled in Lean; the history model and its "
                         "theorems cover the 1-D classes VectorWithOffset<int> / NumericVectorWithOffset / Array<1,int>",
                         "32-bit int overflow and integer division by zero are undefined behaviour in C++ and outside the property: arithmetic operations whose "
                         "operands exceed 30000 in magnitude or whose divisor has a zero are skipped (by harness and model alike, counted as `skip`)",
